@@ -12,6 +12,25 @@ from sigma.exceptions import SigmaSecurityError
 PYSIGMA_ALLOW_VARS_EXECUTION_ENV = "PYSIGMA_ALLOW_VARS_EXECUTION"
 
 
+class PipelineTemplateEnvironment(SandboxedEnvironment):
+    """Sandboxed Jinja environment for pipeline templates.
+
+    The pipeline object handed to a template is data (state, vars). Calling into the processing
+    code from a template is refused: its loaders (``ProcessingPipeline.from_yaml`` / ``from_dict``
+    and the processing item loaders) take the security opt-ins ``allow_template_vars`` and
+    ``allow_external_sources`` as plain arguments, so a template that may call them could grant
+    itself what the caller of the pipeline did not grant.
+    """
+
+    def is_safe_callable(self, obj: Any) -> bool:
+        module = getattr(obj, "__module__", None)
+        if isinstance(module, str) and (
+            module == "sigma.processing" or module.startswith("sigma.processing.")
+        ):
+            return False
+        return super().is_safe_callable(obj)
+
+
 @dataclass
 class TemplateBase:
     """Base class for Jinja template postprocessors and finalizers.
@@ -47,10 +66,10 @@ class TemplateBase:
 
     def __post_init__(self) -> None:
         if self.path is None:
-            env = SandboxedEnvironment(autoescape=self.autoescape)
+            env = PipelineTemplateEnvironment(autoescape=self.autoescape)
             self.j2template = env.from_string(self.template)
         else:
-            env = SandboxedEnvironment(
+            env = PipelineTemplateEnvironment(
                 autoescape=self.autoescape, loader=FileSystemLoader(self.path)
             )
             self.j2template = env.get_template(self.template)
